@@ -69,9 +69,12 @@ impl BerHeader {
                 // > 30
                 let mut n = 0 as Tag;
                 loop {
-                    // @todo: check size
-                    let t = i[current];
+                    let t = *i.get(current).ok_or(Err::Incomplete(Needed::new(1)))?;
                     current += 1;
+                    if n > (Tag::MAX >> 7) {
+                        // Tag number doesn't fit
+                        return Err(Err::Failure(SnmpError::InvalidTagFormat));
+                    }
                     n = (n << 7) | ((t & 0x7f) as Tag);
                     if t & 0x80 == 0 {
                         break;
@@ -84,16 +87,21 @@ impl BerHeader {
         // Parse length offset
         // X.690 8.3.1.4-8.3.1.5
         // @todo: Indefinite length
-        let n = i[current];
+        let n = *i.get(current).ok_or(Err::Incomplete(Needed::new(1)))?;
         current += 1;
         let length = if n & 0x80 == 0 {
             // Short form, X.690 pp 8.3.1.4
             n as usize
         } else {
             // Long form, X.690 pp 8.1.3.5
-            let mut ln = 0;
+            let mut ln: usize = 0;
             for _ in 0..n & 0x7f {
-                ln = (ln << 8) + (i[current] as usize);
+                let x = *i.get(current).ok_or(Err::Incomplete(Needed::new(1)))?;
+                if ln > (usize::MAX >> 8) {
+                    // Length doesn't fit, surely longer than input
+                    return Err(Err::Incomplete(Needed::Unknown));
+                }
+                ln = (ln << 8) + (x as usize);
                 current += 1;
             }
             ln
